@@ -8,3 +8,6 @@ import TvFs.Props.C10
 #print axioms TV.C10.C10_witness_rmdirRenamedIn
 #print axioms TV.C10.C10_witness_staleHandle
 #print axioms TV.C10.C10_witness_createOverDir
+#print axioms TV.C10.C10_witness_fsyncAcrossRename
+#print axioms TV.C10.C10_partial
+#print axioms TV.C10.C10_sync_invisible
